@@ -298,7 +298,7 @@ impl Ctx {
         if v.iter().any(|x| x.sig == f.sig) {
             return;
         }
-        let dir = format!("/verif/replays/{}", self.prop);
+        let dir = format!("{}/replays/{}", crate::util::root(), self.prop);
         let _ = std::fs::create_dir_all(&dir);
         let path = format!("{}/{}-{:016x}.json", dir, eng.name(), fnv_str(&f.sig));
         let body = json!({
@@ -554,7 +554,12 @@ impl Ctx {
 
     /// Replays committed regression cases for this engine from /verif/regress/<prop>/<engine>*.json
     pub fn regress<E: Engine>(&self, eng: &E) {
-        let dir = format!("/verif/regress/{}", self.prop);
+        self.regress_named(eng, &[]);
+    }
+
+    /// As `regress`, also taking files recorded under other instance names of the same engine type.
+    pub fn regress_named<E: Engine>(&self, eng: &E, also: &[&str]) {
+        let dir = format!("{}/regress/{}", crate::util::root(), self.prop);
         let Ok(rd) = std::fs::read_dir(&dir) else { return };
         let mut files: Vec<_> = rd.flatten().map(|e| e.path()).collect();
         files.sort();
@@ -566,7 +571,8 @@ impl Ctx {
             }
             let Ok(s) = std::fs::read_to_string(&p) else { continue };
             let Ok(v) = serde_json::from_str::<Value>(&s) else { continue };
-            if v.get("engine").and_then(|e| e.as_str()) != Some(eng.name()) {
+            let en = v.get("engine").and_then(|e| e.as_str()).unwrap_or("");
+            if en != eng.name() && !also.contains(&en) {
                 continue;
             }
             match serde_json::from_value::<E::Case>(v.get("case").cloned().unwrap_or(Value::Null)) {
